@@ -5,6 +5,7 @@ package main
 
 import (
 	"bufio"
+	"context"
 	"encoding/json"
 	"errors"
 	"flag"
@@ -13,7 +14,10 @@ import (
 	"sort"
 
 	"github.com/glebziz/fs_db"
+	"github.com/glebziz/fs_db/pkg/external"
 	"github.com/glebziz/fs_db/pkg/verif"
+
+	"fsdbverif/drv"
 )
 
 type entry struct {
@@ -73,6 +77,13 @@ func judge(id int, e entry) result {
 	default:
 		shapes = []error{errors.Join(parts[0], parts[1]), fmt.Errorf("x: %w", errors.Join(parts[1], parts[0]))}
 	}
+	if len(e.Err) == 1 && e.Err[0] == "HeaderNotFound" {
+		// the one class the package's own client cannot provoke: a foreign client that sends a chunk first
+		if mm := headerless(); mm != nil {
+			res.Status, res.Owner, res.Mismatch = "violation", "C11", mm
+			return res
+		}
+	}
 	for i, sh := range shapes {
 		got := classes(verif.ClientError(verif.ServerError(sh)))
 		ok := false
@@ -96,6 +107,35 @@ func judge(id int, e entry) result {
 	return res
 }
 
+// headerless uploads without a header to a real server, with several first chunks, and checks the class and that nothing was stored.
+func headerless() *mismatch {
+	dir, err := os.MkdirTemp("/dev/shm", "hl")
+	if err != nil {
+		return nil
+	}
+	defer os.RemoveAll(dir)
+	srv, err := verif.StartServer(drv.NewConfig(dir, 1))
+	if err != nil {
+		return nil
+	}
+	defer srv.Stop()
+	ctx := context.Background()
+	for i, n := range []int{0, 5, 2048, 3000} {
+		err := verif.SetFileWithoutHeader(ctx, srv.Addr, make([]byte, n))
+		if got := classes(err); len(got) != 1 || got[0] != "HeaderNotFound" {
+			return &mismatch{Step: i, Kind: "class", Detail: fmt.Sprintf("an upload whose first message is a chunk of %d bytes instead of the header: the client sees %v (%v), want HeaderNotFound", n, got, err)}
+		}
+	}
+	db, err := external.Open(ctx, srv.Addr)
+	if err != nil {
+		return nil
+	}
+	if ks, err := db.GetKeys(ctx); err != nil || len(ks) != 0 {
+		return &mismatch{Kind: "trace", Detail: fmt.Sprintf("refused uploads left keys behind: %q %v", ks, err)}
+	}
+	return nil
+}
+
 func main() {
 	in := flag.String("in", "", "error values emitted by ErrMap.tla")
 	from := flag.Int("from", 0, "first line")
@@ -104,6 +144,7 @@ func main() {
 	flag.String("mode", "", "ignored")
 	flag.Bool("fs", true, "ignored")
 	flag.Parse()
+	drv.Quiet()
 	f, err := os.Open(*in)
 	if err != nil {
 		fmt.Fprintln(os.Stderr, err)
